@@ -23,6 +23,7 @@ EXPLANATION = (
     "OffReader - and the reader switches on execution() with both arms present. Not decided: enumeration of release orders and "
     "mixes of returning/erroring/panicking handlers (schedules)."
     ' (permit-before-spawn, closed over spawn sites) every spawn site of the WebSocket server whose closure runs a handler owns an OwnedSemaphorePermit, is reached only behind the Ok / no-semaphore edge and never moves the permit away.'
+    ' In every function that pairs fetch_add and fetch_sub on one atomic (a hand-counted slot) every unwind path from the increment crosses a decrement or the drop of a guard whose Drop does it. A wrapper that does not override execution() is accepted when every concrete type it is instantiated over is an inline leaf handler.'
 )
 ASSUMPTIONS = ["tokio::sync::Semaphore permits are released when the OwnedSemaphorePermit is dropped", "catch_unwind catches handler panics (panic=unwind)"]
 
